@@ -9,9 +9,11 @@ package main
 
 import (
 	"fmt"
+	"reflect"
 	"strconv"
 	"strings"
 	"time"
+	"unsafe"
 
 	"github.com/alecthomas/participle/v2/lexer"
 
@@ -120,10 +122,69 @@ func observe(pl *lexer.PeekingLexer, all []lexer.Token) obs {
 	return obs{int(pl.RawCursor()), idxOf(all, pl.Peek()), pl.Cursor()}
 }
 
+// fingerprint renders EVERY field of the real object (also unexported ones, read through reflection),
+// so that two states are only merged when the implementation itself cannot tell them apart: hidden
+// state that is not observable through Peek/Cursor (e.g. a sticky flag) must keep states distinct.
+// Pointers into the token slice are rendered as indexes; the immutable token slice and the elision
+// map are rendered by length only.
+func fingerprint(b *strings.Builder, v reflect.Value, all []lexer.Token, depth int) {
+	if depth > 6 {
+		b.WriteString("...")
+		return
+	}
+	switch v.Kind() {
+	case reflect.Struct:
+		b.WriteString("{")
+		for i := 0; i < v.NumField(); i++ {
+			b.WriteString(v.Type().Field(i).Name + ":")
+			fingerprint(b, v.Field(i), all, depth+1)
+			b.WriteString(" ")
+		}
+		b.WriteString("}")
+	case reflect.Ptr, reflect.UnsafePointer:
+		if v.IsNil() {
+			b.WriteString("nil")
+			return
+		}
+		addr := v.Pointer()
+		if len(all) > 0 {
+			base := uintptr(unsafe.Pointer(&all[0]))
+			sz := unsafe.Sizeof(all[0])
+			if addr >= base && addr < base+uintptr(len(all))*sz && (addr-base)%sz == 0 {
+				fmt.Fprintf(b, "&tok[%d]", (addr-base)/sz)
+				return
+			}
+		}
+		b.WriteString("&")
+		fingerprint(b, v.Elem(), all, depth+1)
+	case reflect.Slice:
+		fmt.Fprintf(b, "slice(len=%d)", v.Len())
+	case reflect.Map:
+		fmt.Fprintf(b, "map(len=%d)", v.Len())
+	case reflect.Int, reflect.Int8, reflect.Int16, reflect.Int32, reflect.Int64:
+		fmt.Fprintf(b, "%d", v.Int())
+	case reflect.Uint, reflect.Uint8, reflect.Uint16, reflect.Uint32, reflect.Uint64, reflect.Uintptr:
+		fmt.Fprintf(b, "%d", v.Uint())
+	case reflect.Bool:
+		fmt.Fprintf(b, "%v", v.Bool())
+	case reflect.String:
+		fmt.Fprintf(b, "%q", v.String())
+	case reflect.Interface:
+		if v.IsNil() {
+			b.WriteString("nil")
+		} else {
+			fingerprint(b, v.Elem(), all, depth+1)
+		}
+	default:
+		fmt.Fprintf(b, "<%s>", v.Kind())
+	}
+}
+
 func (s *state) key(all []lexer.Token) string {
 	var b strings.Builder
 	o := observe(&s.pl, all)
-	fmt.Fprintf(&b, "%d,%d,%d|%d", o.raw, o.peek, o.cursor, s.r)
+	fmt.Fprintf(&b, "%d,%d,%d|%d|", o.raw, o.peek, o.cursor, s.r)
+	fingerprint(&b, reflect.ValueOf(&s.pl).Elem(), all, 0)
 	for k := 0; k < 2; k++ {
 		if !s.has[k] {
 			b.WriteString("|-")
